@@ -292,6 +292,14 @@ impl<A: Read + Write + io::Seek> ZipWriter<A> {
         let (archive_offset, directory_start, number_of_files) =
             ZipArchive::get_directory_counts(&mut readwriter, &footer, cde_start_pos)?;
 
+        // New entries are written from `directory_start` on; a central directory claimed to
+        // start behind its own end record would make us write at an arbitrary offset.
+        if directory_start > cde_start_pos {
+            return Err(ZipError::InvalidArchive(
+                "Central directory starts after its end record",
+            ));
+        }
+
         if readwriter
             .seek(io::SeekFrom::Start(directory_start))
             .is_err()
